@@ -1,8 +1,9 @@
 (* C14 - Computations never modify their inputs; derived continua are independent.  Proofs in theories/Heap/Heap.v.
    (partial: the theorems are about the SHARING STRUCTURE - which mutable containers each continuum owns; that the Python computations themselves
    write nothing is checked by before/after snapshots on every explored call, a functional model would make that part vacuous.) *)
-From Coq Require Import List Arith Bool.
+From Coq Require Import String List Arith Bool.
 From PGA Require Import Heap.Heap.
+From PGAprops Require Import ShapesGen.
 Import ListNotations.
 
 (* every constructor of the (repaired) library keeps the world separated: the new object owns fresh containers with the expected content and
@@ -29,3 +30,19 @@ Proof. exact (add_cat_confined h objs o x). Qed.
 Theorem C14_original_corpus_aliases_reference :
   exists h ref x, let (h', o) := derive_faithful h ref in view (add_cat h' o x) ref <> view h' ref.
 Proof. exact derive_faithful_aliasing_refuted. Qed.
+
+(* ---------------------------------------------------------------------------------------------------------------------------------
+   Tie to the source (re-proved on every run against genprops/ShapesGen.v, read from the CURRENT sources by harness/gen_shapes.py): the bodies
+   below, as normalised text, are the ones the model follows statement by statement. *)
+Fixpoint lookup_src (k : string) (l : list (string * string)) : option string :=
+  match l with [] => None | (a, b) :: r => if String.eqb k a then Some b else lookup_src k r end.
+(* every derived continuum is built from fresh containers: copy deep-copies the annotations and rebuilds the category set, copy_flush starts from a new Continuum, the out-of-place merge works on self.copy(), corpus_from_reference builds a new continuum with a new category set and new Segments *)
+Theorem C14_src_constructors :
+  lookup_src "copy" continuum_src = Some "(self) continuum = Continuum(self.uri); continuum._annotations = deepcopy(self._annotations); continuum._categories = SortedSet(self._categories); continuum.bound_inf, continuum.bound_sup = (self.bound_inf, self.bound_sup); continuum.best_window_size = self.best_window_size; return continuum"%string /\
+  lookup_src "copy_flush" continuum_src = Some "(self) continuum = Continuum(self.uri); continuum.bound_inf, continuum.bound_sup = (self.bound_inf, self.bound_sup); continuum.best_window_size = self.best_window_size; return continuum"%string /\
+  lookup_src "merge" continuum_src = Some "(self, continuum, in_place=False) current_cont = self if in_place else self.copy(); for annotator in continuum.annotators: [current_cont.add_annotator(annotator)]; for (annotator, unit) in continuum: [current_cont.add(annotator, unit.segment, unit.annotation)]; if not in_place: [return current_cont]"%string /\
+  lookup_src "__add__" continuum_src = Some "(self, other) return self.merge(other, in_place=False)"%string /\
+  lookup_src "__init__" continuum_src = Some "(self, uri=None) self.uri = uri; self._annotations: SortedDict = SortedDict(); self._categories: SortedSet = SortedSet(); self.bound_inf = 0.0; self.bound_sup = 0.0; self.best_window_size = np.inf"%string /\
+  lookup_src "corpus_from_reference" corpusshufflingtool_src = Some "(self, new_annotators) continuum = Continuum(); continuum._categories = SortedSet(self._categories); continuum.bound_inf, continuum.bound_sup = self._reference_continuum.bounds; if isinstance(new_annotators, int): [new_annotators = [f'annotator_{i}' for i in range(new_annotators)]]; for unit in self._reference_continuum.iter_annotator(self._reference_annotator): [for new_annotator in new_annotators: [continuum.add(new_annotator, Segment(unit.segment.start, unit.segment.end), unit.annotation)]]; return continuum"%string /\
+  lookup_src "__init__" corpusshufflingtool_src = Some "(self, magnitude, reference_continuum, categories=None) self.magnitude: float = magnitude; reference_annotators = reference_continuum.annotators; if len(reference_annotators) > 1: []; self._reference_annotator: Annotator = reference_annotators[0]; self._reference_continuum: Continuum = reference_continuum; self._categories: SortedSet = SortedSet(self._reference_continuum.categories); if categories is not None: [for category in categories: [self._categories.add(category)]]"%string.
+Proof. repeat split. Qed.
